@@ -326,16 +326,19 @@ struct SetAdapter {
       } break;
       case S_FIND_HETERO: {
         if constexpr (IsTransparentCmp<C>::value) {
-          KeyProbe k{op.key.key};
-          G.armed = true;
-          { SIM_CMP_BEGIN; auto it = cs.find(k); SIM_CMP_END(0); G.armed = false; check_it(s, it, res); G.armed = true; }
-          { SIM_CMP_BEGIN; res.flag2 = cs.contains(k); SIM_CMP_END(1); }
-          { SIM_CMP_BEGIN; res.count = (long)cs.count(k); SIM_CMP_END(2); }
-          if constexpr (kFlat) {
-            { SIM_CMP_BEGIN; auto it = cs.lower_bound(k); SIM_CMP_END(3); res.idx[0] = it - cs.begin(); }
-            { SIM_CMP_BEGIN; auto it = cs.upper_bound(k); SIM_CMP_END(4); res.idx[1] = it - cs.begin(); }
-          }
-          G.armed = false;
+          auto lookups = [&](const auto &k) {
+            G.armed = true;
+            { SIM_CMP_BEGIN; auto it = cs.find(k); SIM_CMP_END(0); G.armed = false; check_it(s, it, res); G.armed = true; }
+            { SIM_CMP_BEGIN; res.flag2 = cs.contains(k); SIM_CMP_END(1); }
+            { SIM_CMP_BEGIN; res.count = (long)cs.count(k); SIM_CMP_END(2); }
+            if constexpr (kFlat) {
+              { SIM_CMP_BEGIN; auto it = cs.lower_bound(k); SIM_CMP_END(3); res.idx[0] = it - cs.begin(); }
+              { SIM_CMP_BEGIN; auto it = cs.upper_bound(k); SIM_CMP_END(4); res.idx[1] = it - cs.begin(); }
+            }
+            G.armed = false;
+          };
+          if (op.probeWidth) lookups(RangeProbe{op.key.key, op.key.key + (int)op.probeWidth});  // coarse probe: may be equivalent to several elements
+          else lookups(KeyProbe{op.key.key});
           res.flag = !res.itEnd;
         } else {
           res.outcome = OUT_NOOP;
